@@ -855,6 +855,71 @@ func llmnrPairing(nClients, mReq, mode, run int) {
 	nontrivial(fmt.Sprintf("llmnr-pairing|%d|%s", nClients, sig))
 }
 
+// llmnrCloseFromHandler: handlers receive the *Server, so "stop the server" can come from a handler.
+func llmnrCloseFromHandler(trials int) {
+	for t := 0; t < trials; t++ {
+		conn, err := net.ListenUDP("udp4", &net.UDPAddr{IP: net.IP{127, 0, 0, 1}})
+		if err != nil {
+			return
+		}
+		var seen atomic.Int64
+		closeAt := int64(1 + t%4)
+		closeReturned := make(chan struct{}, 1)
+		h := llmnr.HandlerFunc(func(s *llmnr.Server, remote net.Addr, w llmnr.ResponseWriter, m *llmnr.Message) bool {
+			if seen.Add(1) == closeAt {
+				s.Close()
+				select {
+				case closeReturned <- struct{}{}:
+				default:
+				}
+			}
+			return false
+		})
+		srv, _ := llmnr.NewServer("udp4", []llmnr.Handler{h})
+		srv.Conn = conn
+		done := make(chan error, 1)
+		go func() { done <- srv.Serve() }()
+		c, _ := net.DialUDP("udp4", nil, conn.LocalAddr().(*net.UDPAddr))
+		for i := 0; i < 6; i++ {
+			q := llmnr.NewMessage()
+			q.SetQuery()
+			q.AddQuestion(llName(0, i), llmnr.TypeA, llmnr.ClassIN)
+			b, _ := q.Encode()
+			c.Write(b)
+		}
+		evals.Add(1)
+		cs := map[string]any{"trial": t, "close_called_by_handler_of_request": closeAt}
+		ok := true
+		select {
+		case <-closeReturned:
+		case <-time.After(progressLimit):
+			ok = false
+		}
+		if ok {
+			select {
+			case <-done:
+			case <-time.After(progressLimit):
+				ok = false
+			}
+		}
+		c.Close()
+		if !ok {
+			_, d := libGoroutines("network/llmnr.")
+			cs["goroutines"] = d
+			viol("shutdown.llmnr.Server:close-from-handler-hung", "Close called from a handler did not return, or Serve did not return after it, within the bounded-progress limit", cs)
+			return
+		}
+		if !within(progressLimit, func() { srv.Close() }) {
+			viol("shutdown.llmnr.Server:close-from-handler-hung", "a second Close after a Close from a handler did not return", cs)
+			return
+		}
+		nontrivial(fmt.Sprintf("close-from-handler|%d", closeAt))
+	}
+	if n, d := waitNoLibGoroutines(10*time.Second, "network/llmnr."); n > 0 {
+		viol("shutdown.llmnr.Server:goroutine-leak", fmt.Sprintf("%d goroutine(s) still alive after Close from a handler", n), map[string]any{"goroutines": d})
+	}
+}
+
 func llmnrShutdown(trials int) {
 	r := rng("llmnr-shutdown")
 	for t := 0; t < trials; t++ {
@@ -981,7 +1046,7 @@ func llmnrClient() {
 			if err != nil || len(q.Questions) == 0 {
 				continue
 			}
-			name := q.Questions[0].Name
+			name := strings.TrimSuffix(q.Questions[0].Name, ".")
 			mu.Lock()
 			idOf[name] = q.ID
 			mu.Unlock()
@@ -1030,7 +1095,7 @@ func llmnrClient() {
 	G := pick(6, 12)
 	per := pick(25, 300)
 	var wg sync.WaitGroup
-	var answered, timedOut atomic.Int64
+	var answered, timedOut, answeredFQ atomic.Int64
 	for g := 0; g < G; g++ {
 		wg.Add(1)
 		go func(g int) {
@@ -1039,9 +1104,20 @@ func llmnrClient() {
 			for i := 0; i < per; i++ {
 				kind := kinds[r.IntN(len(kinds))]
 				name := fmt.Sprintf("%s-g%02d-%04d.example", kind, g, i)
+				asked := name
+				if i%5 == 4 && kind != "none" {
+					asked = name + "." // the fully-qualified spelling of the same name
+				}
 				var m *llmnr.Message
 				var err error
-				p, pv, st := mon.Guard(func() { m, err = cl.Query(context.Background(), name, llmnr.TypeA) })
+				p, pv, st := mon.Guard(func() { m, err = cl.Query(context.Background(), asked, llmnr.TypeA) })
+				if asked != name && err == nil && m != nil {
+					answeredFQ.Add(1)
+				}
+				if asked != name && (err != nil || m == nil) && !p {
+					// the responder answers every such query at once: nothing to wait for
+					viol("llmnr.Client.Query:fully-qualified-name-unanswered", fmt.Sprintf("Query(%q) (script %s) returned %v although the responder answered its transaction id", asked, kind, err), map[string]any{"query_name": asked, "script": kind})
+				}
 				evals.Add(1)
 				cs := map[string]any{"query_name": name, "script": kind}
 				if p {
@@ -1056,7 +1132,7 @@ func llmnrClient() {
 				mu.Lock()
 				want, seen := idOf[name]
 				mu.Unlock()
-				okAns := len(m.Answers) == 1 && m.Answers[0].Name == name && net.IP(m.Answers[0].RData).String() == ipForName(name)
+				okAns := len(m.Answers) == 1 && strings.TrimSuffix(m.Answers[0].Name, ".") == name && net.IP(m.Answers[0].RData).String() == ipForName(name)
 				if !seen || m.ID != want || !okAns || !m.IsResponse() {
 					cs["returned"] = fmt.Sprintf("%+v", *m)
 					viol("llmnr.Client.Query:wrong-response", fmt.Sprintf("Query(%s) (wire id %#04x) returned a message with id %#04x answering %+v", name, want, m.ID, m.Answers), cs)
@@ -1068,6 +1144,7 @@ func llmnrClient() {
 	wg.Wait()
 	count("llmnr_client_queries_answered", int(answered.Load()))
 	count("llmnr_client_queries_timed_out", int(timedOut.Load()))
+	count("llmnr_client_fully_qualified_queries_answered", int(answeredFQ.Load()))
 	if answered.Load() < int64(G*per/4) {
 		inconclusive(fmt.Sprintf("llmnr-client: only %d of %d queries answered", answered.Load(), G*per))
 	}
@@ -1122,6 +1199,110 @@ func ipForName(name string) string {
 	return fmt.Sprintf("10.%d.%d.%d", 1+(h>>16)&0x7F, (h>>8)&0xFF, h&0xFF)
 }
 
+// ------------------------------------------------------------------ NBNS ownership challenge (client side)
+
+// nbChallenges: ChallengeOwnership asks the presumed owner (port 137 of its address) whether it
+// still holds a name. Scripted owners on 127.0.18.k:137 answer at once, only the retransmission,
+// with a foreign id first, with another address, negatively, or never. Needs the right to bind
+// port 137; skipped (and counted) otherwise.
+func nbChallenges() {
+	type script struct {
+		name string
+		want bool
+	}
+	scripts := []script{{"at-once", true}, {"retry-only", true}, {"foreign-id-then-right", true}, {"other-address", false}, {"name-error", false}, {"silent", false}, {"garbage-then-right", true}}
+	var wg sync.WaitGroup
+	skipped := 0
+	for k, sc := range scripts {
+		ip := net.IP{127, 0, 18, byte(10 + k)}
+		conn, err := net.ListenUDP("udp4", &net.UDPAddr{IP: ip, Port: 137})
+		if err != nil {
+			skipped++
+			continue
+		}
+		wg.Add(1)
+		go func(k int, sc script, ip net.IP, conn *net.UDPConn) {
+			defer wg.Done()
+			defer conn.Close()
+			stop := make(chan struct{})
+			go func() { // scripted owner
+				buf := make([]byte, 2048)
+				seen := 0
+				for {
+					conn.SetReadDeadline(time.Now().Add(200 * time.Millisecond))
+					n, from, err := conn.ReadFromUDP(buf)
+					select {
+					case <-stop:
+						return
+					default:
+					}
+					if err != nil {
+						continue
+					}
+					var req nbtns.NBTNSPacket
+					if _, err := req.Unmarshal(append([]byte{}, buf[:n]...)); err != nil || len(req.Questions) == 0 {
+						continue
+					}
+					seen++
+					answer := func(id uint16, addr net.IP, rcode uint16) {
+						resp := &nbtns.NBTNSPacket{Header: nbtns.NBTNSHeader{TransactionID: id, Flags: 0x8400 | rcode}}
+						if rcode == 0 {
+							resp.Header.Answers = 1
+							resp.Answers = []nbtns.NBTNSResourceRecord{{Name: req.Questions[0].Name, Type: 0x20, Class: 1, TTL: 60, RDLength: uint16(len(addr)), RData: addr}}
+						}
+						if b, err := resp.Marshal(); err == nil {
+							conn.WriteToUDP(b, from)
+						}
+					}
+					id := req.Header.TransactionID
+					switch sc.name {
+					case "at-once":
+						answer(id, ip.To4(), 0)
+					case "retry-only":
+						if seen >= 2 {
+							answer(id, ip.To4(), 0)
+						}
+					case "foreign-id-then-right":
+						answer(id^0x0101, net.IP{10, 9, 9, 9}, 0)
+						answer(id, ip.To4(), 0)
+					case "other-address":
+						answer(id, net.IP{10, 9, 9, 9}, 0)
+					case "name-error":
+						answer(id, nil, 3)
+					case "garbage-then-right":
+						conn.WriteToUDP([]byte{1, 2, 3}, from)
+						answer(id, ip.To4(), 0)
+					}
+				}
+			}()
+			ch := nbtns.NewNameChallenger(nbtns.NewNetBIOSNameServer(false), nil)
+			var got bool
+			var err error
+			returned := within(60*time.Second, func() {
+				p, pv, _ := mon.Guard(func() { got, err = ch.ChallengeOwnership("CHALLENGED", ip.To4()) })
+				if p {
+					err = fmt.Errorf("panic: %v", pv)
+				}
+			})
+			close(stop)
+			evals.Add(1)
+			cs := map[string]any{"owner_script": sc.name, "owner": ip.String()}
+			switch {
+			case !returned:
+				viol("nbns.ChallengeOwnership:hung", "ChallengeOwnership did not return", cs)
+			case err != nil:
+				viol("nbns.ChallengeOwnership:error:"+sc.name, fmt.Sprint(err), cs)
+			case got != sc.want:
+				viol("nbns.ChallengeOwnership:verdict:"+sc.name, fmt.Sprintf("owner script %q: ChallengeOwnership says held=%v, the owner's answers say %v", sc.name, got, sc.want), cs)
+			}
+			nontrivial("challenge|" + sc.name)
+		}(k, sc, ip, conn)
+	}
+	wg.Wait()
+	count("challenge_scripts_run", len(scripts)-skipped)
+	count("challenge_scripts_skipped_no_port_137", skipped)
+}
+
 // ------------------------------------------------------------------ child main
 
 func child() {
@@ -1164,6 +1345,8 @@ func child() {
 		nbShutdown(kind, pick(60, 1500))
 	}
 	llmnrShutdown(pick(60, 1500))
+	llmnrCloseFromHandler(pick(12, 200))
+	nbChallenges()
 	llmnrClient()
 	emit(childLine{T: "c", Key: "evaluations", N: evals.Load()})
 	emit(childLine{T: "done"})
